@@ -4,6 +4,9 @@ CONSTANTS
   MaxSize = 4
   ForkAt = 2
   Proofs = {"correct", "othersizes", "otherfork", "truncated", "padded", "random", "empty"}
+  Aliases = {"bits", "nl", "nopad", "urlsafe", "space"}
+  CoverAliases = {"bits", "nl", "nopad", "urlsafe", "space"}
+  CoverFaultProofs = {"correct", "truncated", "empty"}
   Depth = 2
 INIT Init
 NEXT CoverNext
